@@ -14,15 +14,16 @@ open Grog
 /-- **File outputs are restored exactly (bytes and executable bit), from every prior state.**
     `fs0` is the workspace when the output was cached (a regular file `b`, executable bit `x`, at `q ++ [n]`);
     `fs` is *any* workspace state in which the restore runs, provided no ancestor of the destination is a
-    non-directory (`Clear fs q`: ancestors may be absent) and the destination itself is absent or a regular
-    file (any content, any mode); `cas` is *any* CAS holding the blob under its digest.
+    non-directory (`Clear fs q`: ancestors may be absent; symlinked ancestors are followed by the OS and are outside
+    the model). At the destination itself anything may sit: nothing, a regular file of any content and mode, a
+    directory, a symlink (a symlink or directory is removed, not written through — repair F-symlink-dst);
+    `cas` is *any* CAS holding the blob under its digest.
     The only use of the hash is the local-hash shortcut, hence the collision hypothesis relates just the
-    cached content and the content currently at the destination. -/
+    cached content and the content of a regular file currently at the destination. -/
 theorem restoreFile_writeFile (H : Bytes → Digest) (fs0 fs : Entry) (q : Path) (n : Name) (id : Bytes)
     (b : Bytes) (x : Bool) (cas0 : Cas)
     (hsrc : fs0.get (q ++ [n]) = some (.file b x))
     (hpar : Clear fs q)
-    (hdst : ∀ e, fs.get (q ++ [n]) = some e → ∃ b' x', e = .file b' x')
     (hH : ∀ b' x', fs.get (q ++ [n]) = some (.file b' x') → H b' = H b → b' = b) :
     ∃ cas1, writeFile H .fixed fs0 (q ++ [n]) id cas0 = .ok (.file id (H b) b.length x, cas1) ∧
       ∀ cas : Cas, cas.get (H b) = some b →
@@ -30,33 +31,56 @@ theorem restoreFile_writeFile (H : Bytes → Digest) (fs0 fs : Entry) (q : Path)
           fs'.get (q ++ [n]) = some (.file b x) := by
   refine ⟨cas0.write (H b) b, by simp [writeFile, hsrc], ?_⟩
   intro cas hcas
-  -- the load path, used from two places
-  have load : ∃ fs', restoreFileLoad .fixed (H b) x cas fs (q ++ [n]) = .ok fs' ∧
-      fs'.get (q ++ [n]) = some (.file b x) := by
-    obtain ⟨fs1, hm, hdir, hbelow⟩ := mkdirAll_spec hpar
+  have hp : parentOf (q ++ [n]) = q := by simp [parentOf]
+  -- creating the file once the destination is absent or a regular file and the ancestors are clear
+  have create : ∀ fsx : Entry, Clear fsx q → (∀ e, fsx.get (q ++ [n]) = some e → ∃ b' x', e = .file b' x') →
+      ∃ fs', (match mkdirAll fsx q with
+        | .error e => Except.error e
+        | .ok fs1 => createFile fs1 (q ++ [n]) b (some x)) = .ok fs' ∧ fs'.get (q ++ [n]) = some (.file b x) := by
+    intro fsx hcl hreg
+    obtain ⟨fs1, hm, hdir, hbelow⟩ := mkdirAll_spec hcl
     obtain ⟨fs', hs, hg⟩ := setAt_spec (n := n) (.file b x) hdir
     refine ⟨fs', ?_, hg⟩
-    have hp : parentOf (q ++ [n]) = q := by simp [parentOf]
-    simp only [restoreFileLoad, hcas, hp, hm, createFile, hbelow n]
-    cases hget : fs.get (q ++ [n]) with
+    simp only [hm, createFile, hbelow n]
+    cases hget : fsx.get (q ++ [n]) with
     | none => simpa using hs
     | some e =>
-      obtain ⟨b', x', rfl⟩ := hdst e hget
+      obtain ⟨b', x', rfl⟩ := hreg e hget
       simpa using hs
+  -- the load path
+  have load : ∃ fs', restoreFileLoad .fixed (H b) x cas fs (q ++ [n]) = .ok fs' ∧
+      fs'.get (q ++ [n]) = some (.file b x) := by
+    simp only [restoreFileLoad, hcas, hp]
+    cases hget : fs.get (q ++ [n]) with
+    | none => exact create fs hpar (fun e he => by rw [hget] at he; cases he)
+    | some e =>
+      cases e with
+      | file b' x' => exact create fs hpar (fun e he => by rw [hget] at he; cases he; exact ⟨b', x', rfl⟩)
+      | dir es =>
+        obtain ⟨fs0', hr, hcl⟩ := removeAll_spec (n := n) hpar
+        simp only [hr]
+        exact create fs0' (clear_prefix hcl) (fun e he => by rw [get_removeAll_self hr] at he; cases he)
+      | link t =>
+        obtain ⟨fs0', hr, hcl⟩ := removeAll_spec (n := n) hpar
+        simp only [hr]
+        exact create fs0' (clear_prefix hcl) (fun e he => by rw [get_removeAll_self hr] at he; cases he)
   cases hget : fs.get (q ++ [n]) with
   | none => simpa [restoreFile, hget] using load
   | some e =>
-    obtain ⟨b', x', rfl⟩ := hdst e hget
-    by_cases hd : H b' = H b
-    · have hb : b' = b := hH b' x' hget hd
-      subst hb
-      by_cases hx : x' = x
-      · subst hx
-        exact ⟨fs, by simp [restoreFile, hget], hget⟩
-      · obtain ⟨es, hpd⟩ := Entry.parent_dir_of_get hget
-        obtain ⟨fs', hs, hg⟩ := setAt_spec (n := n) (.file b' x) ⟨es, hpd⟩
-        exact ⟨fs', by simp [restoreFile, hget, hx, hs], hg⟩
-    · simpa [restoreFile, hget, hd] using load
+    cases e with
+    | file b' x' =>
+      by_cases hd : H b' = H b
+      · have hb : b' = b := hH b' x' hget hd
+        subst hb
+        by_cases hx : x' = x
+        · subst hx
+          exact ⟨fs, by simp [restoreFile, hget], hget⟩
+        · obtain ⟨es, hpd⟩ := Entry.parent_dir_of_get hget
+          obtain ⟨fs', hs, hg⟩ := setAt_spec (n := n) (.file b' x) ⟨es, hpd⟩
+          exact ⟨fs', by simp [restoreFile, hget, hx, hs], hg⟩
+      · simpa [restoreFile, hget, hd] using load
+    | dir es => simpa [restoreFile, hget] using load
+    | link t => simpa [restoreFile, hget] using load
 
 /-- the hypotheses of `restoreFile_writeFile` are satisfiable by a non-trivial state: an executable file two
     levels down, restored into an empty workspace (both parents missing), with `H := id`. -/
@@ -254,29 +278,54 @@ example :
 
 /-! ## Restore is total: success or a definite error -/
 
-/-- **`restore_total`.** The restore functions always return (they are total functions of the model; the only
-    unbounded recursion of the Go code is bounded by `fuel`). With the tree blob missing the directory restore reports
-    `missingBlob` — unless the destination already hashes to the stored digest, in which case nothing is needed; with
-    the file blob missing the file restore reports `missingBlob` unless the local file already has the stored digest.
-    Success whenever all referenced blobs are present is `restoreDir_writeDir` / `restoreFile_writeFile`. -/
+/-- **`restore_total`.** Restoring a file output is total over prior states: from *every* workspace state whose ancestors of
+    the destination are clear — destination absent, a regular file of any content and mode, a directory, a symlink —
+    (1) if the CAS has an entry for the stored digest the restore succeeds and the destination is a regular file with the
+    stored executable bit (with the cached bytes when the entry is the cached blob: `restoreFile_writeFile`);
+    (2) if it has none, the restore either needs nothing (the local file already hashes to the digest) or reports the
+    definite error `missingBlob` and — like the code, which fetches the blob before touching the destination — the workspace
+    is left as it was. For directory outputs success with all blobs present is `restoreDir_writeDir` (every prior state);
+    (3) a missing tree blob gives `missingBlob` unless the destination already hashes to the stored digest. -/
 theorem restore_total (H : Bytes → Digest) (serD : Directory → Bytes) (serT : TreeMsg → Bytes)
-    (deT : Bytes → Option TreeMsg) (fuel : Nat) (v : Variant) (d : Digest) (x : Bool) (cas : Cas) (fs : Entry) (p : Path) :
-    (hashDirAt H serD serT fs p ≠ some d → cas.get d = none →
-        restoreDir H serD serT deT fuel d cas fs p = .error .missingBlob) ∧
-    ((∀ b y, fs.get p = some (.file b y) → H b ≠ d) → cas.get d = none →
-        restoreFile H v d x cas fs p = .error .missingBlob) := by
-  constructor
-  · intro h hc
-    simp [restoreDir, h, hc]
-  · intro h hc
-    unfold restoreFile
-    cases hg : fs.get p with
-    | none => simp [restoreFileLoad, hc]
+    (deT : Bytes → Option TreeMsg) (fuel : Nat) (d : Digest) (x : Bool) (cas : Cas) (fs : Entry) (q : Path) (n : Name)
+    (hpar : Clear fs q) :
+    (∀ c, cas.get d = some c → ∃ fs' c' , restoreFile H .fixed d x cas fs (q ++ [n]) = .ok fs' ∧
+        fs'.get (q ++ [n]) = some (.file c' x)) ∧
+    (cas.get d = none →
+        (∃ b y, fs.get (q ++ [n]) = some (.file b y) ∧ H b = d) ∨
+        restoreFile H .fixed d x cas fs (q ++ [n]) = .error .missingBlob) ∧
+    (hashDirAt H serD serT fs (q ++ [n]) ≠ some d → cas.get d = none →
+        restoreDir H serD serT deT fuel d cas fs (q ++ [n]) = .error .missingBlob) := by
+  refine ⟨?_, ?_, ?_⟩
+  · intro c hc
+    obtain ⟨fs', hl, hg⟩ := restoreFileLoad_fixed_spec (n := n) d x cas c hpar hc
+    cases hget : fs.get (q ++ [n]) with
+    | none => exact ⟨fs', c, by simpa [restoreFile, hget] using hl, hg⟩
     | some e =>
       cases e with
-      | file b y => simp [h b y hg, restoreFileLoad, hc]
-      | dir es => simp [restoreFileLoad, hc]
-      | link t => simp [restoreFileLoad, hc]
+      | dir es => exact ⟨fs', c, by simpa [restoreFile, hget] using hl, hg⟩
+      | link t => exact ⟨fs', c, by simpa [restoreFile, hget] using hl, hg⟩
+      | file b y =>
+        by_cases hd : H b = d
+        · by_cases hx : y = x
+          · subst hx; exact ⟨fs, b, by simp [restoreFile, hget, hd], hget⟩
+          · obtain ⟨es, hpd⟩ := Entry.parent_dir_of_get hget
+            obtain ⟨fs2, hs, hg2⟩ := setAt_spec (n := n) (.file b x) ⟨es, hpd⟩
+            exact ⟨fs2, b, by simp [restoreFile, hget, hd, hx, hs], hg2⟩
+        · exact ⟨fs', c, by simpa [restoreFile, hget, hd] using hl, hg⟩
+  · intro hc
+    cases hget : fs.get (q ++ [n]) with
+    | none => right; simp [restoreFile, hget, restoreFileLoad, hc]
+    | some e =>
+      cases e with
+      | dir es => right; simp [restoreFile, hget, restoreFileLoad, hc]
+      | link t => right; simp [restoreFile, hget, restoreFileLoad, hc]
+      | file b y =>
+        by_cases hd : H b = d
+        · exact Or.inl ⟨b, y, rfl, hd⟩
+        · right; simp [restoreFile, hget, hd, restoreFileLoad, hc]
+  · intro h hc
+    simp [restoreDir, h, hc]
 
 example : restoreDir id toySerD toySerT toyDeT 3 [42] [] (.dir []) [[111]] = .error .missingBlob := by
   simp [restoreDir, hashDirAt, Entry.get, lookupE, Cas.get]
